@@ -152,6 +152,11 @@ theorem blockAt_applyTxs (s : List (SKey × SVal)) (txs : List Tx) (j : Nat) : b
     cases t with
     | put k v => exact blockAt_sput_ne _ _ _ _ (by simp)
     | del k => exact blockAt_sdel_ne _ _ _ (by simp)
+    | cas k e v =>
+      simp only [applyTx]
+      split
+      · exact blockAt_sput_ne _ _ _ _ (by simp)
+      · rfl
 
 /-! ### `verify_chain` is sound and complete for the pointwise link predicate -/
 
@@ -584,8 +589,12 @@ theorem merkleLoop_inj (C : Crypto) (occ : List Nat → Prop) (hinj : HashInjOn 
       exact merkleLevel_inj C occ hinj n _ _ hlen hx hy
         (fun z hz => ox z (List.mem_append_left _ hz)) (fun z hz => oy z (List.mem_append_left _ hz)) hlv
 
+theorem optCode_inj (a b : Option Nat) (h : optCode a = optCode b) : a = b := by
+  cases a <;> cases b <;> simp_all [optCode]
+
 theorem Tx.enc_inj (a b : Tx) (h : a.enc = b.enc) : a = b := by
   cases a <;> cases b <;> simp_all [Tx.enc]
+  exact optCode_inj _ _ h.2.1
 
 /-- `compute_tx_root` is injective on transaction lists of EQUAL length -/
 theorem txRoot_inj_of_length_eq (C : Crypto) (occ : List Nat → Prop) (hinj : HashInjOn C occ) (n : Nat) (hl : HashLen C n)
@@ -737,6 +746,14 @@ theorem applyTx_dataEq (s s' : List (SKey × SVal)) (h : DataEq s s') (t : Tx) :
     by_cases hk : k' = k
     · subst hk; rw [sget_sdel_same, sget_sdel_same]
     · rw [sget_sdel_ne _ _ _ (by simp [hk]), sget_sdel_ne _ _ _ (by simp [hk])]; exact h k
+  | cas k' e v =>
+    have hd : dataAt s k' = dataAt s' k' := by simp only [dataAt, h k']
+    simp only [applyTx, hd]
+    split
+    · by_cases hk : k' = k
+      · subst hk; rw [sget_sput_same, sget_sput_same]
+      · rw [sget_sput_ne _ _ _ _ (by simp [hk]), sget_sput_ne _ _ _ _ (by simp [hk])]; exact h k
+    · exact h k
 
 theorem applyTxs_dataEq (txs : List Tx) : ∀ (s s' : List (SKey × SVal)), DataEq s s' → DataEq (applyTxs s txs) (applyTxs s' txs) := by
   unfold applyTxs
